@@ -62,11 +62,8 @@ def present_edge(term, c):
 
 def try_ok_edge(fn, call):
     """the Continue edge of the `?` applied (possibly after map_err) to the result of `call`"""
-    for t in fn.body.calls("=branch"):
-        if any(k == "call" and o is call for k, o in fn.sl.origins(t.args[0])):
-            sw = fn.body.blocks[t.target].term
-            if sw.kind == "switch": return variant_edge(sw, 0), variant_edge(sw, 1)
-    return None, None
+    from vlib.cfg import question_mark_edges
+    return question_mark_edges(fn.body, fn.du, call)
 
 
 def err_variant_blocks(body, variant):
